@@ -521,6 +521,19 @@ class Sim:
         """After a faulted op the model is a no-op - or, for the per-lexicon transactions of
         a multi-match removal, the prefix state the observation shows."""
         F_CLOSE = 'C06-handler-close-raises-after-commit'
+        if op['op'] == 'add_ili' and last.get('fired') == ['F1-handler-close'] \
+                and F_CLOSE in compare.ENABLED_FINDINGS:
+            # the known finding: the handler's close() is called after the commit, so the
+            # load is durable although the call raised
+            f = self.ilif[op['file']]
+            d = observe.logical_dump(self.W.dbpath())
+            got_ili = {r[0]: [r[1], r[2]] for r in d['shared']['ilis']}
+            now = {k: [v['status'], v['definition']] for k, v in self.m.ilis.items()}
+            if got_ili != now:
+                compare.note_known(F_CLOSE)
+                self.m.add_ili(f)
+                self.reconcile_ili_repeats(f)
+            return
         got = sorted(lx.specifier() for lx in wn.lexicons())
         if got == sorted(self.m.installed):
             return
